@@ -744,13 +744,13 @@ func (viso *VirtualISO) read(buf []byte, off int64) (int64, error) {
 			toRead = remain
 		}
 
-		for i := sizeBytes(0); i < remain; i++ {
+		for i := sizeBytes(0); i < toRead; i++ {
 			buf[i] = 0
 		}
 
-		offset += remain
-		read += int64(remain)
-		remain = 0
+		offset += toRead
+		read += int64(toRead)
+		remain -= toRead
 	}
 
 	return read, nil
